@@ -3,7 +3,9 @@
 Decided clause: the piecewise laws coded in DCMotor.compute_torque / compute_electric_current
 (guards with their operators and thresholds, coefficients, unit handling) are, as gated canonical
 terms, the documented law; mirror symmetry and continuity at the dead-zone boundary are polynomial
-identities of the *extracted* terms.  Not decided: floating-point neighbours of the boundary."""
+identities of the *extracted* terms.  At the floating-point neighbours of the boundary only branch selection is decided
+(C08.boundary-tests: all duty-cycle order tests compare the same operand terms; C08.boundary-division: a denominator
+vanishing on the boundary is tested on its path); other rounding is not."""
 from __future__ import annotations
 
 from sa import sx as sxm
@@ -219,7 +221,8 @@ def check(model, rep):
                 'in SI-magnitude space with symbolic unit factors; each specified case (guards incl. <= at '
                 'the dead-zone boundary, term) is matched by guard compatibility; mirror symmetry and '
                 'continuity are decided as polynomial identities of the extracted terms. '
-                'Decides the code shape of the law, not floating-point behaviour at the boundary.')
+                'Decides the code shape of the law; at the floating-point neighbours of the boundary only branch selection '
+                '(same operand terms in every duty-cycle test, tested denominators).')
     # the laws must be functions of the present motor constants, speed and duty cycle only
     from sa.extract import purity_scan
     impure = False
